@@ -3051,8 +3051,9 @@ func (p *printer) printExpr(expr js_ast.Expr, level js_ast.L, flags printExprFla
 		n := len(buffer)
 
 		// Avoid forming a single-line comment or "</script" sequence
-		if !p.options.UnsupportedFeatures.Has(compat.InlineScript) && n > 0 {
-			if last := buffer[n-1]; last == '/' || (last == '<' && len(e.Value) >= 7 && strings.EqualFold(e.Value[:7], "/script")) {
+		if n > 0 {
+			if last := buffer[n-1]; last == '/' || (!p.options.UnsupportedFeatures.Has(compat.InlineScript) &&
+				last == '<' && len(e.Value) >= 7 && strings.EqualFold(e.Value[:7], "/script")) {
 				p.print(" ")
 			}
 		}
